@@ -9,31 +9,32 @@ export GOFLAGS=-mod=mod GOPROXY=off GOSUMDB=off GOTOOLCHAIN=local
 # the SDK's keyring dependency dials the D-Bus session bus in an init() and would auto-launch
 # one dbus-daemon per process; a dead address makes that dial fail at once instead
 export DBUS_SESSION_BUS_ADDRESS=unix:path=/nonexistent DISABLE_KWALLET=1
-cd /verif/harness || exit 2
+VROOT="$(cd "$(dirname "$0")" && pwd)"
+cd "$VROOT/harness" || exit 2
 cp /repo/go.sum go.sum
-mkdir -p /verif/.build
-BIN="/verif/.build/chainmon.$$"
+mkdir -p $VROOT/.build
+BIN="$VROOT/.build/chainmon.$$"
 trap 'rm -f "$BIN"' EXIT
-if ! go build -tags verif -o "$BIN" . 2>/verif/.build/build.$$.log; then
-  cat /verif/.build/build.$$.log
+if ! go build -tags verif -o "$BIN" . 2>$VROOT/.build/build.$$.log; then
+  cat $VROOT/.build/build.$$.log
   echo "BUILD-FAILED property=$ID (the harness does not compile against /repo's working tree)"
-  rm -f /verif/.build/build.$$.log
+  rm -f $VROOT/.build/build.$$.log
   exit 2
 fi
-rm -f /verif/.build/build.$$.log
-"$BIN" run -prop "$ID" -tier "$TIER" -seed "${VERIF_SEED:-1}" -out /verif
+rm -f $VROOT/.build/build.$$.log
+"$BIN" run -prop "$ID" -tier "$TIER" -seed "${VERIF_SEED:-1}" -out "$VROOT"
 rc=$?
 if [ "$ID" = "C20" ] && [ "$TIER" = "thorough" ]; then
   # same engine under the Go race detector: 16 replicas, one app instance each, run concurrently
-  RBIN="/verif/.build/chainmon.race.$$"; RLOG="/verif/.build/race.$$"
+  RBIN="$VROOT/.build/chainmon.race.$$"; RLOG="$VROOT/.build/race.$$"
   if go build -race -tags verif -o "$RBIN" . 2>/dev/null; then
-    cp /verif/evidence/C20.json "/verif/.build/C20.ev.$$"
-    GORACE="halt_on_error=0 log_path=$RLOG" "$RBIN" run -prop C20 -tier quick -seed "${VERIF_SEED:-1}" -out /verif/.build/raceout.$$ >/dev/null 2>&1
+    cp $VROOT/evidence/C20.json "$VROOT/.build/C20.ev.$$"
+    GORACE="halt_on_error=0 log_path=$RLOG" "$RBIN" run -prop C20 -tier quick -seed "${VERIF_SEED:-1}" -out $VROOT/.build/raceout.$$ >/dev/null 2>&1
     rrc=$?
-    cp "/verif/.build/C20.ev.$$" /verif/evidence/C20.json
-    "$BIN" racereport -logs "$RLOG" -evidence /verif/evidence/C20.json -run-exit $rrc || rc=1
-    mkdir -p /verif/replays; for f in "$RLOG"*; do [ -f "$f" ] && mv "$f" /verif/replays/ ; done
-    rm -rf "$RBIN" /verif/.build/raceout.$$ "/verif/.build/C20.ev.$$"
+    cp "$VROOT/.build/C20.ev.$$" $VROOT/evidence/C20.json
+    "$BIN" racereport -logs "$RLOG" -evidence $VROOT/evidence/C20.json -run-exit $rrc || rc=1
+    mkdir -p "$VROOT/replays"; for f in "$RLOG"*; do [ -f "$f" ] && mv "$f" "$VROOT/replays/" ; done
+    rm -rf "$RBIN" $VROOT/.build/raceout.$$ "$VROOT/.build/C20.ev.$$"
   else
     echo "INCONCLUSIVE property=C20 the -race build failed"; [ $rc = 0 ] && rc=3
   fi
